@@ -114,7 +114,10 @@ func (r ResolveResult) Targets(network string) iter.Seq[Target] {
 			}
 			alpn := h.ALPN
 			if !h.NoDefaultALPN {
-				alpn = append(alpn, "http/1.1")
+				// Copy first: appending in place would write into the
+				// spare capacity of a slice owned by the result, which
+				// may be shared with the resolver's cache.
+				alpn = append(slices.Clone(alpn), "http/1.1")
 			}
 			if h.Target != "" {
 				for _, a := range r.Additional[h.Target] {
